@@ -26,6 +26,7 @@ type acStats struct {
 	BotMoves    int            `json:"bot_moves"`
 	BotMix      map[string]int `json:"bot_move_mix"`
 	BotRejected int            `json:"bot_moves_rejected"`
+	BotCases    int            `json:"bot_runner_edge_cases"`
 	PlayerCases int            `json:"player_runner_cases"`
 	PlayerMix   map[string]int `json:"player_runner_outcomes"`
 	ObsCases    int            `json:"observer_cases"`
@@ -312,12 +313,23 @@ func botTable(r *rand.Rand, st *acStats, hid int, hands int, snapsOut *[]*pokert
 
 // ----- (2) player runner: auto-play -----
 
-func playerCase(snap *pokertable.Table, playerID string, status int, actionTime int, wait bool) string {
+func playerCase(snap *pokertable.Table, playerID string, status int, actionTime int, wait bool, levelUp bool) string {
 	t := safeClone(snap)
 	if t == nil {
 		return ""
 	}
 	t.Meta.ActionTime = actionTime
+	if levelUp && t.State.BlindState != nil {
+		// the competition's blind clock has ticked while this hand runs: the table's level is the next one, the hand's
+		// posted sizes (GameState.Meta) are still those it opened with
+		b := *t.State.BlindState
+		b.Level++
+		b.Ante = b.Ante*2 + 5
+		b.Dealer = b.Dealer*2 + 5
+		b.SB = b.SB*2 + 5
+		b.BB = b.BB*2 + 5
+		t.State.BlindState = &b
+	}
 	gi := t.GamePlayerIndex(playerID)
 	v := viewStr(t.State.GameState)
 	a := actor.NewActor()
@@ -357,7 +369,7 @@ func playerCase(snap *pokertable.Table, playerID string, status int, actionTime 
 		}
 	}
 	statusName := []string{"running", "idle", "suspend"}[status]
-	return fmt.Sprintf("ac player status=%s atime=%d waited=%s st=%s gi=%d %s | call=%s delay_ms=%d\n", statusName, actionTime, b01(wait), statusShort(t.State.Status), gi, v, res, delay)
+	return fmt.Sprintf("ac player status=%s atime=%d waited=%s lvlup=%s st=%s gi=%d %s | call=%s delay_ms=%d\n", statusName, actionTime, b01(wait), b01(levelUp), statusShort(t.State.Status), gi, v, res, delay)
 }
 
 // ----- (3) observer runner and the real adapter -----
@@ -466,6 +478,77 @@ func observerCase(r *rand.Rand, snap *pokertable.Table, status pokertable.TableS
 }
 
 // pickPlayer: a participant of the snapshot's hand, preferably one the hand is asking something of
+// botCase: a fresh (non-humanised) bot runner is shown one hand state in which it is asked for a wager action, with its
+// stack put on an edge of the bot's amount logic (exactly the minimum bet, one above; exactly the minimum raise level,
+// one above) or left as it was. The bot acts inside UpdateTableState, so a panic of its own is caught here.
+func botCase(r *rand.Rand, snap *pokertable.Table) string {
+	t := safeClone(snap)
+	if t == nil || t.State.GameState == nil || t.State.Status != pokertable.TableStateStatus_TableGamePlaying {
+		return ""
+	}
+	gs := t.State.GameState
+	if gs.Status.CurrentEvent != "RoundStarted" {
+		return ""
+	}
+	cur := gs.Status.CurrentPlayer
+	p := gs.GetPlayer(cur)
+	if p == nil || cur >= len(t.State.GamePlayerIndexes) {
+		return ""
+	}
+	has := func(a string) bool {
+		for _, x := range p.AllowedActions {
+			if x == a {
+				return true
+			}
+		}
+		return false
+	}
+	edge := "asis"
+	switch {
+	case has("bet") && r.Intn(4) != 0:
+		d := int64(r.Intn(2))
+		edge = fmt.Sprintf("bet+%d", d)
+		p.InitialStackSize = gs.Status.MiniBet + d
+		p.StackSize = p.InitialStackSize - p.Wager
+	case has("raise") && r.Intn(4) != 0:
+		d := int64(r.Intn(2))
+		edge = fmt.Sprintf("raise+%d", d)
+		p.InitialStackSize = gs.Status.CurrentWager + gs.Status.PreviousRaiseSize + d
+		p.StackSize = p.InitialStackSize - p.Wager
+	}
+	if !has("bet") && !has("raise") && r.Intn(3) != 0 {
+		return ""
+	}
+	playerID := t.State.PlayerStates[t.State.GamePlayerIndexes[cur]].PlayerID
+	v := viewStr(gs)
+	var sb strings.Builder
+	for rep := 0; rep < 10; rep++ {
+		a := actor.NewActor()
+		ad := &recAdapter{}
+		a.SetAdapter(ad)
+		a.SetRunner(actor.NewBotRunner(playerID))
+		mv := "none"
+		func() {
+			defer func() {
+				if e := recover(); e != nil {
+					mv = "panic:" + strings.ReplaceAll(fmt.Sprint(e), " ", "_")
+				}
+			}()
+			ad.UpdateTableState(safeClone(t))
+		}()
+		if !strings.HasPrefix(mv, "panic") {
+			if calls := ad.take(); len(calls) > 0 {
+				mv = fmt.Sprintf("%s:%d", calls[0].kind, calls[0].arg)
+				if len(calls) > 1 {
+					mv += fmt.Sprintf("+%d-more", len(calls)-1)
+				}
+			}
+		}
+		fmt.Fprintf(&sb, "ac botcase edge=%s gi=%d %s | move=%s\n", edge, cur, v, mv)
+	}
+	return sb.String()
+}
+
 func pickPlayer(r *rand.Rand, s *pokertable.Table) string {
 	gi := s.State.GamePlayerIndexes
 	if len(gi) == 0 {
@@ -496,6 +579,7 @@ func runActor(args []string) {
 	pcases := fs.Int("playercases", 1500, "player-runner cases (immediate)")
 	ptimed := fs.Int("playertimed", 24, "player-runner cases that wait for the thinking time (1 s each, in parallel)")
 	ocases := fs.Int("observercases", 1500, "observer cases")
+	bcases := fs.Int("botcases", 300, "bot-runner edge cases (stack on the edges of the bot's amount logic), 10 draws each")
 	fs.Parse(args)
 	devnull, _ := os.OpenFile(os.DevNull, os.O_WRONLY, 0)
 	os.Stdout = devnull
@@ -543,6 +627,32 @@ func runActor(args []string) {
 	st.Snapshots = len(snaps)
 	r := rand.New(rand.NewSource(*seed))
 	if len(snaps) > 0 {
+		w.WriteString("ac new h=900003 kind=botcases\n")
+		betSnaps := []*pokertable.Table{}
+		for _, sn := range snaps {
+			if g := sn.State.GameState; g != nil && g.Status.CurrentEvent == "RoundStarted" && sn.State.Status == pokertable.TableStateStatus_TableGamePlaying {
+				if cp := g.GetPlayer(g.Status.CurrentPlayer); cp != nil {
+					for _, a := range cp.AllowedActions {
+						if a == "bet" {
+							betSnaps = append(betSnaps, sn)
+						}
+					}
+				}
+			}
+		}
+		for k, tries := 0, 0; k < *bcases && tries < *bcases*40; tries++ {
+			pick := snaps[r.Intn(len(snaps))]
+			if len(betSnaps) > 0 && r.Intn(2) == 0 {
+				pick = betSnaps[r.Intn(len(betSnaps))] // states in which nobody has bet yet are rare among all states
+			}
+			l := botCase(r, pick)
+			if l != "" {
+				w.WriteString(l)
+				k++
+				st.BotCases++
+			}
+		}
+		w.WriteString("ac end\n")
 		w.WriteString("ac new h=900001 kind=player\n")
 		// player runner, immediate outcomes: every status, action time 0 (acts at once) and 1 (arms the time bank)
 		for k := 0; k < *pcases; k++ {
@@ -551,7 +661,7 @@ func runActor(args []string) {
 				continue
 			}
 			pl := pickPlayer(r, s)
-			line := playerCase(s, pl, r.Intn(3), r.Intn(2), false)
+			line := playerCase(s, pl, r.Intn(3), r.Intn(2), false, r.Intn(2) == 0)
 			w.WriteString(line)
 			st.PlayerCases++
 		}
@@ -568,7 +678,7 @@ func runActor(args []string) {
 			wg2.Add(1)
 			go func(k int, s *pokertable.Table, pl string, status int) {
 				defer wg2.Done()
-				timed[k] = playerCase(s, pl, status, 1, true)
+				timed[k] = playerCase(s, pl, status, 1, true, k%2 == 0)
 			}(k, s, pl, status)
 		}
 		wg2.Wait()
